@@ -1,10 +1,11 @@
 pub mod solver;
 pub mod unify;
+pub mod builtins;
 
 use crate::driver::Property;
 
 pub fn all_ids() -> Vec<&'static str> {
-    vec!["C01", "C02", "C03", "C04", "C05", "C06", "C07", "C08", "C09", "C11"]
+    vec!["C01", "C02", "C03", "C04", "C05", "C06", "C07", "C08", "C09", "C11", "C12", "C13", "C14", "C15", "C16", "C17"]
 }
 
 pub fn by_id(id: &str) -> Option<Box<dyn Property>> {
@@ -21,6 +22,12 @@ pub fn by_id(id: &str) -> Option<Box<dyn Property>> {
         "C07" => Box::new(UnifyProp { id: "C07", aspect: UAspect::Symmetry }),
         "C08" => Box::new(UnifyProp { id: "C08", aspect: UAspect::Acyclic }),
         "C09" => Box::new(UnifyProp { id: "C09", aspect: UAspect::Anon }),
+        "C12" => Box::new(builtins::BuiltinProp { id: "C12", aspect: builtins::BAspect::Arith }),
+        "C13" => Box::new(builtins::BuiltinProp { id: "C13", aspect: builtins::BAspect::FuncSides }),
+        "C14" => Box::new(builtins::BuiltinProp { id: "C14", aspect: builtins::BAspect::Compare }),
+        "C15" => Box::new(builtins::BuiltinProp { id: "C15", aspect: builtins::BAspect::Lists }),
+        "C16" => Box::new(builtins::BuiltinProp { id: "C16", aspect: builtins::BAspect::Append }),
+        "C17" => Box::new(builtins::BuiltinProp { id: "C17", aspect: builtins::BAspect::Misc }),
         _ => return None,
     })
 }
